@@ -127,7 +127,8 @@ CHECKS = {
         "predictions compared with a fresh clone trained on the implied multiset. Translator tie: harness/translate/pywrapper.py re-translates the helpers "
         "_get_sw/_copy_sw/_concat_sw and the new-training-record block of the emulated partial_fit from the current source into Gen/WrapperGen.lean on every run; "
         "merge_eq proves the generated block equal to the model's merge for all inputs, gen_merge_spec / gen_merge_total / gen_merge_mixed / gen_merge_nodup are "
-        "stated about the generated text, and skawrapgendriver executes it against the record the real object holds after partial_fit.",
+        "stated about the generated text, and skawrapgendriver executes it against the record the real object holds after partial_fit; the attribute-storing tail of "
+        "fit is translated too (fit.store; gen_fit_store_eq_fit: it leaves exactly the state the model's fit returns) and executed against the real attributes.",
         design="§4 C19",
         technique="Lean 4 proof (refinement + induction over op sequences; bridging proof for the translated source) + state-level correspondence",
     ),
